@@ -46,7 +46,10 @@ def escLoc : Loc → Str → Str
   | _, s => s
 
 /-- `strings.Join`. -/
-def join (sep : Str) (parts : List Str) : Str := sep.intercalate parts
+def join (sep : Str) : List Str → Str
+  | [] => []
+  | [x] => x
+  | x :: y :: t => x ++ sep ++ join sep (y :: t)
 
 /-- `stylePrimitive` prefix. -/
 def primPrefix (st : Style) (name : Str) : Str :=
@@ -127,12 +130,19 @@ def pairUp : List Str → Option (List (Str × Str))
   | k :: v :: rest => (pairUp rest).map ((k, v) :: ·)
   | [_] => none
 
+/-- exploded members `k=v`: each part must split on `=` into exactly two pieces. -/
+def explodedPairs : List Str → Except String (List (Str × Str))
+  | [] => .ok []
+  | p :: rest =>
+    match split cEq p with
+    | [k, v] => match explodedPairs rest with
+      | .ok r => .ok ((k, v) :: r)
+      | .error e => .error e
+    | _ => .error "exploded-format"
+
 /-- `bindSplitPartsToDestinationStruct` up to the JSON step: key/value pairs. -/
 def partsToPairs (explode : Bool) (parts : List Str) : Except String (List (Str × Str)) :=
-  if explode then
-    parts.mapM (fun p => match split cEq p with
-      | [k, v] => .ok (k, v)
-      | _ => .error "exploded-format")
+  if explode then explodedPairs parts
   else match pairUp parts with
     | some kvs => .ok kvs
     | none => .error "pairs"
@@ -146,18 +156,24 @@ def unescLoc (loc : Loc) (v : Str) : Except String Str :=
 
 /-- `BindStyledParameterWithOptions` at string level, for a destination of the given shape. -/
 def bindStyled (st : Style) (explode required : Bool) (name : Str) (loc : Loc) (sh : Shape) (wire : Str) :
-    Except String Val := do
-  if required && wire.isEmpty then throw "empty"
-  let v ← unescLoc loc wire
-  match sh with
-  | .obj =>
-    let parts ← splitStyled st explode true name v
-    let kvs ← partsToPairs explode parts
-    pure (.obj kvs)
-  | .arr =>
-    let parts ← splitStyled st explode false name v
-    pure (.arr parts)
-  | .prim => pure (.prim v)
+    Except String Val :=
+  if required && wire.isEmpty then .error "empty" else
+  match unescLoc loc wire with
+  | .error e => .error e
+  | .ok v =>
+    match sh with
+    | .obj =>
+      match splitStyled st explode true name v with
+      | .error e => .error e
+      | .ok parts =>
+        match partsToPairs explode parts with
+        | .error e => .error e
+        | .ok kvs => .ok (.obj kvs)
+    | .arr =>
+      match splitStyled st explode false name v with
+      | .error e => .error e
+      | .ok parts => .ok (.arr parts)
+    | .prim => .ok (.prim v)
 
 /-! ### Query parameters -/
 
